@@ -7,7 +7,7 @@ PROP = dict(
                        "C21_import_first_supplier", "C21_qualified_same_decl", "C21_clash_iff", "C21_clash_iff_own",
                        "C21_children_exact", "C21_child_visible_iff", "C21_filtered_child_invisible",
                        "C21_qualified_variant_same_decl", "C21_children_follow_decls", "C21_pattern_same_decl",
-                       "C21_arms_independent"],
+                       "C21_arms_independent", "C21_clash_iff_members"],
     harness_bin="c21",
     mismatch_is_violation=True,
     rule="(quick) 700 / (thorough) 12000 seeded multi-file programs built from an abstract description: 1-4 files, names from a "
@@ -24,7 +24,9 @@ PROP = dict(
          "namespaces) and as expressions `[prefix.]Ty.V` (resolved through the declarations), incl. variants only another file's "
          "enum of that name has; half of the programs are generated clash-free (clashing names of glob / list imports are moved "
          "into `except` / out of the inclusion list, which yields filtered imports next to an own declaration of the same name), "
-         "two thirds of those with valid uses only; every declaration prints a unique tag, every use is a call or a match against "
+         "two thirds of those with valid uses only; one use in three is in value position (`let v = f` / `let v = p.f`, then `v(0)`), half of the prefix-qualified variant "
+         "expressions also carry the prefix-qualified type in an annotation, and in the not-clean half one enum / interface in "
+         "eight declares a variant / method twice; every declaration prints a unique tag, every use is a call or a match against "
          "a value of the expected enum, so the output names the declaration each use reached; unresolved / clash / bad-import diagnostics are read from check_lsp; "
          "distinct = distinct program descriptions; non-trivial = the program has an import or a shadowing binder",
     nontrivial=lambda req, imp: any(c in req for c in ("{", " g", " i", " e", " a")),
@@ -33,6 +35,11 @@ PROP = dict(
         "file discovery (lib.rs get_files/add_imports) is exercised by the correspondence only",
     ],
     assumptions=[
+        "fixed probes (harness/probes_bg8, Rust-side oracle): namespace-qualified functions / constructors as values, "
+        "namespace-qualified types in annotations (found / not found / not a namespace), member access through a function, "
+        "clashes with builtin types / intrinsics / #host functions and duplicate members, duplicate member functions per receiver "
+        "type, extend / implement for non-types, a duplicate type parameter (D101), and OsFileProvider on a directory tree written "
+        "under work/C21 (search order main dir, import dirs, standard modules; missing module)",
         "declarations are top-level functions, enums and interfaces; struct definitions, member functions and two-level "
         "qualified patterns (the parser accepts one prefix only) are not generated; local binders never reuse a type name",
         "the for-loop variable is scoped to the loop (D39, fixed by 2429730)",
